@@ -467,6 +467,7 @@ class Num(Val):
         self.seg = None         # D3 index map (list of segmap.Seg) when the array is a re-arrangement
         self.segax = 0          # axis the index map describes (arrays of rank > 1)
         self.mirror = False     # the vector is the complex conjugate of a spectrum-bearing vector (rows of Vh)
+        self.org = None         # index at which the array's natural origin sits (lag 0 of a correlation, zero of an arange)
         self.sz = sp.Integer(1)  # normalisation signature: product of explicit size factors applied so far (None = mixed)
         Num._uid += 1
         self.uid = Num._uid     # identity of the abstract value (forwarding / exposure rules)
@@ -488,6 +489,7 @@ class Num(Val):
         n.segax = 0
         n.mirror = self.mirror
         n.sz = self.sz
+        n.org = self.org
         for k, v in kw.items():
             setattr(n, k, v)
         return n
